@@ -844,6 +844,9 @@ class World(object):
                 kwargs['method'] = op['method']
         elif route == 'np':
             reg = ao.config.array_op_out
+            if op.get('out') is not None and reg is None:
+                reg = self.obj(self.ref(op['out']))     # np.add(a, b, out=reg)
+                kwargs['out'] = reg
         else:
             raise HarnessError('route')
         if reg is not None and (reg is ao or (bo is not None and reg is bo)):
@@ -878,7 +881,7 @@ class World(object):
         else:
             npf = {'add': np.add, 'sub': np.subtract, 'mul': np.multiply, 'truediv': np.true_divide,
                    'floordiv': np.floor_divide, 'mod': np.mod}[f]
-            x = npf(ao, bv)
+            x = npf(ao, bv, **kwargs)
         k = self.finish_new(st, x, origin='arith')
         if st.dest is not None and k == st.dest:
             self.fresh_buffer(k)
